@@ -1254,6 +1254,7 @@ func c14G10(l *core.Ledger, r *rt) {
 // NewConfiguration itself to NewRawConfiguration with the wrapper's own
 // manager, and a wrapper node for every raw node in the raw order.
 func c14G12(l *core.Ledger) {
+	l.Rule("C14-G13", "the generated constructors reject an empty configuration: every success return of Manager.NewConfiguration and ConfigurationFromRaw is dominated by the not-empty edge of a test of the configuration's size")
 	l.Rule("C14-G12", "wrapper fidelity (static code of the generated API): Configuration.And/Except hand (receiver's raw configuration, argument's raw configuration) to the raw method of the same name; NewConfiguration hands its NodeListOption and its own RawManager to NewRawConfiguration and fails when that fails; the wrapper node list is element i = wrapper of raw element i for every i (NewConfiguration, ConfigurationFromRaw, Manager.Nodes)")
 	dev := l.Prog.Pkg("cmd/protoc-gen-gorums/dev")
 	if dev == nil {
@@ -1463,6 +1464,76 @@ func c14G12(l *core.Ledger) {
 			c, isC := o.V.(*ssa.Call)
 			return o.Kind == sx.KCall && isC && c.Call.StaticCallee() != nil && c.Call.StaticCallee().Name() == "Nodes"
 		}, "RawManager.Nodes()")
+	}
+	// G13: the wrapper constructors reject an empty configuration (a node list forgotten among
+	// the options, an empty raw configuration): every return that reports success is dominated
+	// by the not-empty edge of a test of the configuration's size
+	for _, spec := range []struct{ recv, name string }{{"Manager", "NewConfiguration"}, {"", "ConfigurationFromRaw"}} {
+		fn := method(spec.recv, spec.name)
+		if fn == nil {
+			continue
+		}
+		n++
+		key := "dev." + spec.name + "/rejects-empty"
+		var notEmpty []sx.Edge
+		sx.AllInstrs(fn, func(_ sx.Node, in ssa.Instruction) {
+			ifi, ok := in.(*ssa.If)
+			if !ok {
+				return
+			}
+			v, pos := condOf(ifi)
+			b, ok := v.(*ssa.BinOp)
+			if !ok {
+				return
+			}
+			k, isK := b.Y.(*ssa.Const)
+			call, isCall := b.X.(*ssa.Call)
+			if !isK || !isCall || k.Value == nil {
+				return
+			}
+			isCfg := func(t types.Type) bool {
+				if p, isP := t.(*types.Pointer); isP {
+					t = p.Elem()
+				}
+				nt, isN := t.(*types.Named)
+				return isN && (nt.Obj().Name() == "RawConfiguration" || nt.Obj().Name() == "Configuration")
+			}
+			isSize := false
+			if bi, isB := call.Call.Value.(*ssa.Builtin); isB && bi.Name() == "len" && len(call.Call.Args) == 1 && isCfg(call.Call.Args[0].Type()) {
+				isSize = true
+			}
+			if cs := call.Call.StaticCallee(); cs != nil && cs.Name() == "Size" && cs.Signature.Recv() != nil && isCfg(cs.Signature.Recv().Type()) {
+				isSize = true
+			}
+			kv, exact := constant.Int64Val(constant.ToInt(k.Value))
+			if !isSize || !exact {
+				return
+			}
+			t, f := sx.CondEdges(ifi)
+			if !pos {
+				t, f = f, t
+			}
+			switch {
+			case b.Op == token.EQL && kv == 0, b.Op == token.LSS && kv == 1, b.Op == token.LEQ && kv == 0:
+				notEmpty = append(notEmpty, f)
+			case b.Op == token.NEQ && kv == 0, b.Op == token.GTR && kv == 0, b.Op == token.GEQ && kv == 1:
+				notEmpty = append(notEmpty, t)
+			}
+		})
+		ok := true
+		var at token.Pos
+		sx.AllInstrs(fn, func(nd sx.Node, in ssa.Instruction) {
+			ret, isRet := in.(*ssa.Return)
+			if !isRet || len(ret.Results) < 2 {
+				return
+			}
+			if k, isK := ret.Results[len(ret.Results)-1].(*ssa.Const); isK && k.IsNil() {
+				if !edgesDominate(fn, notEmpty, nd) {
+					ok, at = false, ret.Pos()
+				}
+			}
+		})
+		l.Check(ok, "C14-G13", key, at, "success only for a configuration with at least one node", "the generated "+spec.name+" can return an empty configuration with a nil error (a node list forgotten among the options, an empty raw configuration): every other way of asking for a configuration without nodes is rejected, and the first quorum call on the empty one panics")
 	}
 	l.Floor("C14-G12", n, 6, "wrapper obligations in the static code")
 }
